@@ -1949,3 +1949,76 @@ Lemma bringup_example :
   e_del (s_b s) = [1; 3; 4; 6] /\ e_sub (s_a s) = [1; 3; 4; 6] /\ e_del (s_a s) = [2; 5] /\ e_sub (s_b s) = [2; 5] /\
   c_q (e_ch (s_a s)) = [] /\ c_q (e_ch (s_b s)) = [] /\ e_dead (s_a s) = 0%nat /\ e_dead (s_b s) = 0%nat.
 Proof. vm_compute. splits; reflexivity. Qed.
+
+(* ================= one write = one attempt ================= *)
+(* [att_incs q q'] = the keys, in order, of the entries whose attempts went up by exactly one between q and q'
+   (None if anything else changed) *)
+Fixpoint att_incs (q q' : list pending) : option (list (Z * Z)) :=
+  match q, q' with
+  | [], [] => Some []
+  | p :: r, p' :: r' =>
+      if negb ((p_ns p' =? p_ns p) && (p_body p' =? p_body p)) then None
+      else if p_att p' =? p_att p then att_incs r r'
+      else if p_att p' =? p_att p + 1 then option_map (cons (key p)) (att_incs r r')
+      else None
+  | _, _ => None
+  end.
+Definition pkey (k : pkt) : Z * Z := (k_ns k, match k_body k with Some b => b | None => (-1) end).
+
+Lemma att_incs_refl q : att_incs q q = Some [].
+Proof.
+  induction q as [|p r IH]; simpl; [reflexivity|].
+  rewrite !Z.eqb_refl. simpl. exact IH.
+Qed.
+
+(* driveSend: the writes it attempts (successful ones, then the failing one) are exactly the entries it marks
+   0 -> 1, in queue order *)
+Lemma drive_q_writes cwnd nr dl : forall q infl fj q' o e,
+  (forall p, In p q -> 0 <= p_att p) ->
+  drive_q cwnd nr dl infl fj q = (q', o, e) ->
+  att_incs q q' = Some (map pkey (o ++ opt_list e)).
+Proof.
+  induction q as [|p r IH]; intros infl fj q' o e Hn H; simpl in H.
+  - inversion H; subst. reflexivity.
+  - assert (Hr : forall x, In x r -> 0 <= p_att x) by (intros x Hx; apply Hn; right; exact Hx).
+    pose proof (Hn p (or_introl eq_refl)) as Hp.
+    destruct (0 <? p_att p) eqn:Ea.
+    + destruct (drive_q cwnd nr dl infl fj r) as [[r' o'] e'] eqn:E. inversion H; subst.
+      simpl. rewrite !Z.eqb_refl. simpl. eapply IH; eauto.
+    + assert (p_att p = 0) by lia.
+      destruct (cwnd <=? infl).
+      * inversion H; subst. cbn [app opt_list map]. apply att_incs_refl.
+      * destruct fj as [[|k]|].
+        -- inversion H; subst. cbn [att_incs p_ns p_body p_att app opt_list map pkey k_ns k_body key].
+           rewrite !Z.eqb_refl. cbn [andb negb]. rewrite H0. change (1 =? 0) with false. change (1 =? 0 + 1) with true.
+           cbv iota. rewrite att_incs_refl. reflexivity.
+        -- destruct (drive_q cwnd nr dl (infl + 1) (Some k) r) as [[r' o'] e'] eqn:E. inversion H; subst.
+           cbn [att_incs p_ns p_body p_att app map pkey k_ns k_body key].
+           rewrite !Z.eqb_refl. cbn [andb negb]. rewrite H0. change (1 =? 0) with false. change (1 =? 0 + 1) with true.
+           cbv iota. rewrite (IH _ _ _ _ _ Hr E). reflexivity.
+        -- destruct (drive_q cwnd nr dl (infl + 1) None r) as [[r' o'] e'] eqn:E. inversion H; subst.
+           cbn [att_incs p_ns p_body p_att app map pkey k_ns k_body key].
+           rewrite !Z.eqb_refl. cbn [andb negb]. rewrite H0. change (1 =? 0) with false. change (1 =? 0 + 1) with true.
+           cbv iota. rewrite (IH _ _ _ _ _ Hr E). reflexivity.
+Qed.
+
+(* Tick (when it does not declare dead): the retransmissions it writes are exactly the entries whose attempts it
+   increments, in queue order (write errors are ignored by Tick: every attempt is counted) *)
+Lemma tick_q_writes f now nr : forall q cwnd ssth q' cw ss o,
+  tick_q f now nr cwnd ssth q = (Some q', cw, ss, o) ->
+  att_incs q q' = Some (map pkey o).
+Proof.
+  induction q as [|p r IH]; intros cwnd ssth q' cw ss o H; simpl in H.
+  - inversion H; subst. reflexivity.
+  - destruct ((p_att p =? 0) || (now <? p_dl p)).
+    + destruct (tick_q f now nr cwnd ssth r) as [[[r' cw1] ss1] o1] eqn:E.
+      destruct r' as [r'|]; simpl in H; [|discriminate]. inversion H; subst.
+      simpl. rewrite !Z.eqb_refl. simpl. eapply IH; eauto.
+    + destruct (f_maxr f <? p_att p + 1); [discriminate|].
+      match type of H with context [tick_q f now nr 1 ?s r] =>
+        destruct (tick_q f now nr 1 s r) as [[[r' cw1] ss1] o1] eqn:E end.
+      destruct r' as [r'|]; simpl in H; [|discriminate]. inversion H; subst.
+      cbn [att_incs p_ns p_body p_att map pkey k_ns k_body key].
+      rewrite !Z.eqb_refl. cbn [andb negb].
+      assert (p_att p + 1 =? p_att p = false) as -> by lia. rewrite (IH _ _ _ _ _ _ E). reflexivity.
+Qed.
